@@ -428,7 +428,7 @@ theorem follows_expected (funcs : List Func) : follows Expected.C15.depFacts fun
     have hp := List.find?_some h
     have : funcs.any (fun f => f.name == id.name) = true := List.any_eq_true.mpr ⟨g, hm, hp⟩
     rw [this]
-    cases hmeth : g.meth <;> simp [hmeth, Expected.C15.depFacts]
+    cases hmeth : g.meth <;> simp [hmeth, Expected.C15.depFacts, tagged]
 
 /-- …and an identifier makes the specification depend on the one that declares the package-level
     variable it denotes -/
